@@ -139,6 +139,16 @@ class Case:
                 log.append(("metric", prefix, labels, outputs, r))
                 return r
             evaluator.step = ev_step
+            if sp.get("pre_step"):
+                # the evaluator was used by hand before fit() (a probe on one sample, never followed by compute()): the
+                # metrics of the first epoch are still those of the first epoch's samples only
+                if mode == "binary":
+                    lab0, out0 = np.array([1.0], dtype=np.float32), np.array([0.0], dtype=np.float32)
+                elif mode == "multi-class":
+                    lab0, out0 = np.array([1.0], dtype=np.float32), np.array([[1.0, 0.0]], dtype=np.float32)
+                else:
+                    lab0, out0 = np.array([[0.0, 1.0]], dtype=np.float32), np.array([[1.0, 0.0]], dtype=np.float32)
+                orig_ev(Tn(env.const(lab0, np.float32) if env.sym else lab0), Tn(env.const(out0, np.float32) if env.sym else out0))
         trainer = Trainer(model, synapgrad)
         trainer.compile(crit, opt, evaluator)
         entry_mode = bool(sp["grad_on_entry"])
@@ -373,6 +383,8 @@ def enumerate_specs(tier):
     for mode in ("binary", "multi-class", "categorical"):
         for val in (False, True):
             specs.append({"epochs": 1, "batches": 1, "val": val, "evaluator": mode, "grad_on_entry": True, "test": False})
+        specs.append({"epochs": 2, "batches": 1, "val": mode == "binary", "evaluator": mode, "grad_on_entry": True, "test": False,
+                      "pre_step": True})
         if tier != "quick":
             specs.append({"epochs": 2, "batches": 1, "val": True, "evaluator": mode, "grad_on_entry": True, "test": True})
     for mode in ("binary", "multi-class", "categorical"):
